@@ -57,11 +57,6 @@ def kv(line):
 
 # ------------------------------------------------------------------ the property, on the implementation's output
 
-def wrap16(z):
-    m = z % 65536
-    return m if m < 32768 else m - 65536
-
-
 def expected_plain(fd, d, text, alts):
     """Property sentence 1, per character (independent of the Coq model). Returns list of
     (set of admissible glyph ids, cluster, function gid -> (xa, ya, xo, yo))."""
@@ -73,7 +68,7 @@ def expected_plain(fd, d, text, alts):
         h = hadv[g] if g < len(hadv) else 0
         if d in ("ltr", "rtl"):
             return (h, 0, 0, 0)
-        v = (vadv[g] if g < len(vadv) else 0) if vadv is not None else wrap16(fd["asc"] - fd["desc"])
+        v = (vadv[g] if g < len(vadv) else 0) if vadv is not None else fd["asc"] - fd["desc"]
         return (0, -v, -(h // 2), -fd["asc"])
     exp = []
     for (c, cl) in text:
@@ -161,14 +156,14 @@ def parse_simple(out):
     return tables, fonts, cases, anomalies
 
 
-def correspondence(chk, binp, nfonts, per):
+def correspondence(chk, binp, nfonts, per, label="simple_correspondence", seed_off=0):
     """Returns (disagreements, predicate failures)."""
     dis, fails = [], []
     rc, out, err = C.run_rbv(binp, ["c16", "alphabet"])
     m = re.search(r"alphabet-summary chars=(\d+) anomalies=(\d+)", out)
     if rc != 0 or not m or int(m.group(2)) != 0:
         dis.append({"what": "generator-alphabet-not-in-domain", "output": out[-800:] + err[-300:]})
-    rc, out, err = C.run_rbv(binp, ["c16", "simple", "--seed", chk.seed, "--fonts", nfonts, "--per", per])
+    rc, out, err = C.run_rbv(binp, ["c16", "simple", "--seed", chk.seed + seed_off, "--fonts", nfonts, "--per", per])
     if rc != 0:
         raise RuntimeError("rbv c16 simple failed: " + err[-500:])
     tables, fonts, cases, anomalies = parse_simple(out)
@@ -213,10 +208,12 @@ def correspondence(chk, binp, nfonts, per):
         if cs["text"]:
             distinct.add((cs["font"], cs["dir"], tuple(cs["text"]), cs["level"], cs["nf"]))
         if why:
-            known = ("glyph id > 0xFFFF" in why)  # never: predicate_simple already exempts the nf writer
             fails.append({"what": "simple-font-result-differs-from-cmap-and-metrics", "why": why, "case": cs["line"],
                           "fonthex": fd.get("hex", ""), "req": cs["req"], "nf": cs["nf"],
-                          "fontdata": {k: fd[k] for k in ("asc", "desc", "hadv", "vadv")}, "known": known})
+                          "pred": {"fd": {"asc": fd["asc"], "desc": fd["desc"], "hadv": fd["hadv"], "vadv": fd["vadv"],
+                                          "cmap": sorted(fd["cmap"].items())},
+                                   "dir": cs["dir"], "text": cs["text"], "nf": cs["nf"],
+                                   "alts": {str(k): sorted(v) for k, v in alts.items()}, "vs": sorted(vs_set)}})
     # ---- model vs implementation
     by_font = {}
     for idx, cs in enumerate(cases):
@@ -251,7 +248,7 @@ def correspondence(chk, binp, nfonts, per):
         body += "Definition cases := %s.\n" % (" ++ ".join("cases_%d" % i for i in range(len(chunks))) or "@nil scase")
         body += "Eval vm_compute in (N.of_nat (length cases) :: failing (case_in_domain mir vert) cases).\n"
         body += "Eval vm_compute in (failing (check_case mir vert) cases).\n"
-        name = "c16_simple_%d" % si
+        name = "c16_%s_%d" % ("s" if label == "simple_correspondence" else "c", si)
         jobs.append((name, body))
         shard_cases[name] = idxs
     res = C.coq_eval_many(jobs)
@@ -278,7 +275,11 @@ def correspondence(chk, binp, nfonts, per):
     stats["compared_with_model"] = compared
     stats["fonts"] = len(fonts)
     stats["cmap_formats"] = "4 / 12 / both cycled by font index; cmap14 in ~2/3 of the fonts"
-    chk.note("simple_correspondence", stats)
+    stats["panics"] = sum(1 for cs in cases if cs["out"] is None)
+    tall = {i for i, fd in fonts.items() if fd.get("vadv") is None and "asc" in fd and fd["asc"] - fd["desc"] > 32767}
+    stats["tall_fonts_without_vmtx"] = len(tall)
+    stats["tall_font_vertical_cases"] = sum(1 for cs in cases if cs["font"] in tall and cs["dir"] in ("ttb", "btt") and cs["text"])
+    chk.note(label, stats)
     if cases:
         mid = cases[len(cases) // 2]
         chk.sample({"simple_case": mid["line"][:600]})
@@ -367,6 +368,15 @@ def run(chk):
         d1, f1 = correspondence(chk, binp, 200 if thorough else 48, 100 if thorough else 40)
         dis += d1
         fails += f1
+        # overflow-checked + debug-assertion build: same cases judged the same way (a panic is a failure);
+        # keeps the tall fonts (ascender - descender > 32767) of the defect fixed in 836488e as regression
+        ok2, binc, blog2 = C.cargo_build("checked", hooks=True)
+        if ok2:
+            d3, f3 = correspondence(chk, binc, 60 if thorough else 18, 50 if thorough else 30, label="simple_correspondence_checked_build", seed_off=101)
+            dis += d3
+            fails += f3
+        else:
+            broken.append("checked-build-failed: " + blog2[-600:])
         f2, known_seen = invariants(chk, binp, thorough)
         fails += f2
         still, wline = witness(chk, binp)
@@ -401,7 +411,7 @@ def run(chk):
         "hold for every oracle, the correspondence uses the values of the real functions (hooks) and the generator's alternates tables",
         "domain of C16_simple_*: characters that are not marks / default ignorables; unmapped characters are assumed to have no canonical "
         "decomposition, no space fallback and to differ from U+2011 (then they get .notdef); fonts without GSUB/GPOS/GDEF/kern/kerx/morx/"
-        "trak, without glyf/CFF/VORG/OS2, not variable; default or Hebrew shaper; release arithmetic (ascender - descender wraps in i16)",
+        "trak, without glyf/CFF/VORG/OS2, not variable; default or Hebrew shaper",
         "C16_gid16_outside_known assumes the font's cmap / cmap-14 glyph ids are < 2^16 (they are u16 in the file format)",
     ]
     chk.cov["trusted_base"] = C.DEFAULT_TRUSTED_BASE + [
@@ -439,11 +449,15 @@ def replay(chk, path):
     rc, out, err = C.run_rbv(binp, args)
     print(out.strip())
     bad = any(l.startswith(("viol", "known", "panic")) for l in out.splitlines())
-    if body.get("fontdata") and out.startswith("ok "):
+    if body.get("pred") and out.startswith("ok "):
+        pr = body["pred"]
+        fd = dict(pr["fd"])
+        fd["cmap"] = {int(k): int(v) for k, v in fd["cmap"]}
         d = kv(out.splitlines()[0])
-        fd = dict(body["fontdata"])
-        m = re.search(r" cmap=(\S+)", body.get("case", ""))
-        print("(positions are re-judged by ./check C16; this replay shows the implementation's output for the stored request)")
+        case = {"out": parse_out(d["out"]), "dir": d["dir"], "text": [tuple(t) for t in pr["text"]], "nf": pr["nf"]}
+        why = predicate_simple(fd, case, {int(k): set(v) for k, v in pr["alts"].items()}, set(pr["vs"]))
+        print("property predicate on this output:", why or "holds")
+        bad = bad or bool(why)
     if bad:
         print("STILL FAILING")
     return 1 if bad else 0
